@@ -42,6 +42,7 @@ class Model:
         self.aperture = None   # [type, value]
         self.pickups = []      # dicts src, attr, dst, scale, offset
         self.solves = []       # dicts k, h
+        self.extra_ops = []    # build ops with no model effect, verbatim
         self.zscale = 1.0      # running magnitude of |z| (for tolerances)
         self.synced = True     # False after insertion / removal in the middle
 
@@ -105,7 +106,8 @@ class Model:
              'rx': op.get('rx', 0), 'ry': op.get('ry', 0),
              'mat': mat, 'stop': bool(op.get('stop', False)),
              'reflective': reflective,
-             'aperture': list(op['aperture']) if op.get('aperture') else None}
+             'aperture': list(op['aperture']) if op.get('aperture') else None,
+             'op': dict(op)}
         if kind == 'even_asphere':
             s['coeffs'] = [c for c in op.get('coefficients', [])]
         elif kind in ('polynomial', 'chebyshev'):
@@ -141,7 +143,7 @@ class Model:
             self.fields.append([op.get('x', 0.0), op['y'], op.get('vx', 0.0),
                                 op.get('vy', 0.0)])
         elif o in ('set_polarization', 'set_telecentric'):
-            pass
+            self.extra_ops.append(dict(op))
         else:
             raise NotApplicable(o)
 
@@ -270,6 +272,54 @@ class Model:
                 sf['aperture'] = [sf['aperture'][0] * s,
                                   sf['aperture'][1] * s]
         self._touch_scale()
+
+    # ------------------------------------------------------------ export
+    def to_build_ops(self):
+        """Build operations that construct, from scratch, the lens the model
+        currently describes (None when the model cannot be expressed that
+        way, e.g. a mirror whose rear medium was edited)."""
+        ops = []
+        for k, s in enumerate(self.surfs):
+            if 'op' not in s:
+                return None
+            op = dict(s['op'])
+            op['index'] = k
+            op.pop('share', None)
+            op['thickness'] = s['t']
+            op['radius'] = s['radius']
+            op['stop'] = bool(s['stop'])
+            if s['kind'] == 'plane':
+                op.pop('conic', None)
+            else:
+                op['conic'] = s['conic']
+                if op.get('stype', 'standard') == 'standard' and \
+                        math.isinf(s['radius']):
+                    return None
+            if s['coeffs'] is not None:
+                op['coefficients'] = copy.deepcopy(s['coeffs'])
+            for key in ('dx', 'dy', 'rx', 'ry'):
+                op[key] = s[key]
+            if s['reflective']:
+                if k == 0 or s['mat'] != self.surfs[k - 1]['mat']:
+                    return None
+                op['material'] = ['mirror']
+            else:
+                op['material'] = list(s['mat'])
+            op['aperture'] = list(s['aperture']) if s['aperture'] else None
+            ops.append(op)
+        if self.aperture:
+            ops.append({'op': 'set_aperture', 'type': self.aperture[0],
+                        'value': self.aperture[1]})
+        if self.field_type:
+            ops.append({'op': 'set_field_type', 'type': self.field_type})
+        for x, y, vx, vy in self.fields:
+            ops.append({'op': 'add_field', 'x': x, 'y': y, 'vx': vx,
+                        'vy': vy})
+        for w in self.wls:
+            ops.append({'op': 'add_wavelength', 'value': w['value'],
+                        'unit': w['unit'], 'primary': w['primary']})
+        ops += [dict(o) for o in self.extra_ops]
+        return ops
 
     # ------------------------------------------------------------ snapshot
     def expected(self):
